@@ -244,6 +244,9 @@ func coverCheck(obs []*Oblig, pres map[*Exec][2]string, timeoutS int, dir string
 	}
 	last := map[key]*Oblig{}
 	for _, o := range obs {
+		if o.ex == nil {
+			continue
+		}
 		k := key{o.ex, o.Reach}
 		if p, ok := last[k]; !ok || o.Cut > p.Cut {
 			last[k] = o
